@@ -466,6 +466,8 @@ func runC16(c *Ctx) {
 	}
 	r7 := c.R.Rule("R7", "K5 frozen guarded-by table: the per-pipeline lock registry (pipelineLocks.locks) is accessed only under its mu — the premise of 'one apply per pipeline at a time'", 2)
 	c.guardTable(r7, guardEntry{Rel: pProv, Struct: "pipelineLocks", Mutex: "mu", Fields: []string{"locks"}, Min: 2})
+	c16R10(c)
+	c16R11(c)
 	r1 := c.R.Rule("R1", "K3/K4 lock, re-plan, hash: the per-pipeline lock is taken (deferred unlock) before the re-plan; every mutating call is dominated by Plan[ok] and the hash-equal edge", 14)
 	r2 := c.R.Rule("R2", "K3 authorisation: a running pipeline is touched only on the allowRestartOnRunning edge; ApplyPlan refuses a running pipeline", 5)
 	r4 := c.R.Rule("R4", "K3 drain before mutate: StopAndWait[ok] → transactionalImport[ok] → Start; provisioning never calls the non-draining Stop", 4)
@@ -701,4 +703,178 @@ func runC16(c *Ctx) {
 			c.R.Check(ok, r3, t[1]+": authorisation flag is a constant or the server's own setting", c.Pos(call.Pos()), "ok", "the restart authorisation passed to ApplyPlanLive in "+t[1]+" is neither a constant nor the constructor-initialised server field: a request could authorise its own live apply", true)
 		}
 	}
+}
+
+// c16R10: "one apply per pipeline at a time" holds only while every apply to a pipeline locks the SAME mutex: an
+// entry of the lock registry is never forgotten while it may be held (no delete, the map is never replaced), and Lock
+// locks the mutex that is in the registry.
+func c16R10(c *Ctx) {
+	r := c.R.Rule("R10", "K2 a pipeline's apply mutex is never forgotten: no delete from pipelineLocks.locks, the map is assigned only by its constructor, and Lock locks (and returns the Unlock of) the mutex stored in the map", 3)
+	locksF := c.Field(r, pProv, "pipelineLocks", "locks")
+	lock := c.SSA(r, pProv, "(*pipelineLocks).Lock")
+	pkg := c.W.Pkg(pProv)
+	if locksF == nil || lock == nil || pkg == nil {
+		return
+	}
+	n := 0
+	for _, fn := range c.W.AllFuncs(c.W.SSA[pkg.Types]) {
+		for _, b := range fn.Blocks {
+			for _, in := range b.Instrs {
+				if call, ok := in.(*ssa.Call); ok {
+					if bi, ok := call.Call.Value.(*ssa.Builtin); ok && (bi.Name() == "delete" || bi.Name() == "clear") && len(call.Call.Args) > 0 && kit.IsFieldLoad(call.Call.Args[0], locksF) {
+						n++
+						c.R.Fail(r, kit.FuncKey(fn)+": entry removed from the lock registry", c.Pos(call.Pos()), "an entry of pipelineLocks.locks is deleted: an apply that still holds (or waits for) that mutex no longer excludes a later apply to the same pipeline, which gets a fresh mutex — two applies re-plan, drain, import and restart the same pipeline concurrently, and a plan the first one is about to make stale is still accepted")
+					}
+				}
+				if st, ok := in.(*ssa.Store); ok && kit.SameField(kit.FieldOf(st.Addr), locksF) {
+					okc := fn.Name() == "newPipelineLocks"
+					c.R.Check(okc, r, kit.FuncKey(fn)+": the lock registry map is assigned", c.Pos(st.Pos()), "constructor", "pipelineLocks.locks is replaced outside its constructor: mutexes that are held are forgotten", true)
+				}
+			}
+		}
+	}
+	if n == 0 {
+		c.R.Pass(r, "pipelineLocks.locks: no entry is ever removed", c.Pos(lock.Pos()), "no delete/clear", true)
+	}
+	// Lock locks a mutex that is in the map: the locked value is the looked-up entry or the one just inserted
+	mLock := c.W.ExtMethod("sync", "Mutex", "Lock")
+	okLock := false
+	for _, call := range kit.CallsTo(lock, Set(mLock)) {
+		recv := call.Common().Args[0]
+		if kit.IsFieldLoad(recv, c.Field(r, pProv, "pipelineLocks", "mu")) || kit.FieldOf(recv) != nil {
+			continue
+		}
+		inMap := kit.DerivesFrom(recv, func(x ssa.Value) bool {
+			if lk, ok := x.(*ssa.Lookup); ok && kit.IsFieldLoad(lk.X, locksF) {
+				return true
+			}
+			// inserted: some MapUpdate on the registry stores x
+			refs := x.Referrers()
+			if refs != nil {
+				for _, u := range *refs {
+					if mu, ok := u.(*ssa.MapUpdate); ok && mu.Value == x && kit.IsFieldLoad(mu.Map, locksF) {
+						return true
+					}
+				}
+			}
+			return false
+		})
+		c.R.Check(inMap, r, "pipelineLocks.Lock: locks the registered mutex", c.Pos(call.Pos()), "the looked-up / inserted entry", "Lock locks a mutex that is not the one stored in the registry for this id", true)
+		okLock = okLock || inMap
+	}
+	c.R.Check(okLock, r, "pipelineLocks.Lock: a per-id mutex is locked", c.Pos(lock.Pos()), "found", "no Lock of a per-id mutex found in pipelineLocks.Lock", true)
+}
+
+// c16R11: a failed (re)start leaves the pipeline cleanly stopped (v2): when a worker fails to open, every worker
+// opened before it and the shared sink are closed before Start returns the error — otherwise the connector stays
+// 'running', every later Start fails and the persister never quiesces.
+func c16R11(c *Ctx) {
+	r := c.R.Rule("R11", "K4/K9 v2 failed start leaves nothing open: behind the failure edge of Worker.Open in runPipeline every exit closes the sink, and the workers opened so far are closed by a loop that covers all of them (index span [0, len(opened)-1] or [0, i-1] of the opened prefix)", 3)
+	fn := c.SSA(r, pLife2, "(*Service).runPipeline")
+	wOpen := c.Fn(r, pFunnel, "(*Worker).Open")
+	wClose := c.Fn(r, pFunnel, "(*Worker).Close")
+	sClose := c.Fn(r, pFunnel, "(*Sink).Close")
+	if fn == nil || wOpen == nil || wClose == nil || sClose == nil {
+		return
+	}
+	opens := kit.CallsTo(fn, Set(wOpen))
+	c.R.Check(len(opens) == 1, r, "v2 runPipeline: Worker.Open", c.Pos(fn.Pos()), "found", "expected exactly one Worker.Open call in runPipeline", true)
+	for _, o := range opens {
+		// the opening loop: index and slice of the worker that is opened
+		oSlice, oIdx := elemOf(o.Common().Args[0])
+		for _, e := range kit.FailEdges(o) {
+			g := kit.NewGates()
+			for _, sc := range kit.CallsTo(fn, Set(sClose)) {
+				g.AddInstr(sc, "rp.sink.Close")
+			}
+			ok, exit := kit.AllExitsFromEdge(e, false, kit.ExitSpec{Gates: g})
+			c.R.Check(ok && !g.Empty(), r, "v2 runPipeline: a failed Worker.Open closes the sink on every exit", c.Pos(o.Pos()), "sink.Close", "an exit (block "+fmtInts(exit)+") behind the Worker.Open failure edge does not close the shared sink", true)
+			found := false
+			for _, cl := range kit.CallsTo(fn, Set(wClose)) {
+				if !(cl.Block() == e.To || e.To.Dominates(cl.Block())) {
+					continue
+				}
+				found = true
+				cSlice, cIdx := elemOf(cl.Common().Args[0])
+				if cSlice == nil {
+					c.R.Fail(r, "v2 runPipeline: opened workers are closed by a covering loop", c.Pos(cl.Pos()), "the closed worker is not an element of a slice indexed by a loop counter: cannot show that every opened worker is closed")
+					continue
+				}
+				sp, okSp := kit.IndexSpan(cIdx)
+				cov := false
+				why := "the loop closing the opened workers is not a recognised counting loop"
+				if okSp {
+					why = "the loop closing the workers opened so far does not cover all of them (its index does not run over [0, len(opened)-1] / [0, i-1]): a worker that was opened stays open — its source plugin and DLQ keep running, nothing in runningPipelines can reach them, every later Start fails with 'connector is running' and the persister never quiesces"
+					loOK := sp.Lo.Base == nil && sp.Lo.Off == 0
+					hiOK := false
+					if sp.Hi.Off == -1 && sp.Hi.Base != nil {
+						// len(S) - 1 with S the indexed slice
+						if lc, ok := sp.Hi.Base.(*ssa.Call); ok {
+							if bi, ok := lc.Call.Value.(*ssa.Builtin); ok && bi.Name() == "len" && sameSlice(lc.Call.Args[0], cSlice) {
+								hiOK = appendedOnSuccess(fn, cSlice, o)
+							}
+						}
+						// i - 1 with i the index of the opening loop over the same slice
+						if sp.Hi.Base == oIdx && oIdx != nil && sameSlice(cSlice, oSlice) {
+							if osp, ok := kit.IndexSpan(oIdx); ok && osp.Lo.Base == nil && osp.Lo.Off == 0 && !osp.Down {
+								hiOK = true
+							}
+						}
+					}
+					cov = loOK && hiOK
+				}
+				c.R.Check(cov, r, "v2 runPipeline: opened workers are closed by a covering loop", c.Pos(cl.Pos()), "[0, n-1]", why, true)
+			}
+			c.R.Check(found, r, "v2 runPipeline: a failed Worker.Open closes the workers opened before", c.Pos(o.Pos()), "Worker.Close", "no Worker.Close behind the Worker.Open failure edge: workers opened before the failing one stay open", true)
+		}
+	}
+}
+
+// elemOf: v == s[i] → (s, i).
+func elemOf(v ssa.Value) (ssa.Value, ssa.Value) {
+	u, ok := v.(*ssa.UnOp)
+	if !ok || u.Op != token.MUL {
+		return nil, nil
+	}
+	ia, ok := u.X.(*ssa.IndexAddr)
+	if !ok {
+		return nil, nil
+	}
+	return ia.X, ia.Index
+}
+
+func sameSlice(a, b ssa.Value) bool {
+	if a == nil || b == nil {
+		return false
+	}
+	if a == b {
+		return true
+	}
+	pa, pb := kit.PathOf(a), kit.PathOf(b)
+	return pa != "" && pa == pb && kit.FieldOf(a) != nil
+}
+
+// appendedOnSuccess: s is a local slice (a loop phi) that receives the opened worker by append on the path that
+// continues the opening loop.
+func appendedOnSuccess(fn *ssa.Function, s ssa.Value, open ssa.CallInstruction) bool {
+	phi, ok := s.(*ssa.Phi)
+	if !ok {
+		return false
+	}
+	for _, e := range phi.Edges {
+		call, ok := e.(*ssa.Call)
+		if !ok {
+			continue
+		}
+		if bi, ok := call.Call.Value.(*ssa.Builtin); !ok || bi.Name() != "append" || call.Call.Args[0] != ssa.Value(phi) {
+			continue
+		}
+		// on the success side of Open
+		for _, oe := range kit.OKEdges(open) {
+			if oe.To == call.Block() || oe.To.Dominates(call.Block()) {
+				return true
+			}
+		}
+	}
+	return false
 }
